@@ -65,6 +65,8 @@ class SimSocket(object):
         return 1000 + self.net.sockets.index(self)
 
     def settimeout(self, t):
+        if t is not None and t < 0:
+            raise ValueError('Timeout value out of range')
         self.timeout = t
 
     def gettimeout(self):
@@ -498,6 +500,8 @@ class SelectNS(object):
 
     def select(self, rlist, wlist, xlist, timeout=None):
         rlist = list(rlist)
+        if timeout is not None and timeout < 0:
+            raise ValueError('timeout must be non-negative')      # as the real one
         for s in rlist:
             if s.closed:
                 raise ValueError('file descriptor cannot be a negative integer (-1)')
@@ -525,6 +529,8 @@ class TimeNS(object):
         return self.sim.now
 
     def sleep(self, d):
+        if d < 0:
+            raise ValueError('sleep length must be non-negative')
         self.sim.wait(_never, d, 'sleep')
 
 
@@ -568,6 +574,8 @@ class SimQueue(object):
 
     def get(self, block=True, timeout=None):
         sim = self.sim
+        if block and timeout is not None and timeout < 0:
+            raise ValueError("'timeout' must be a non-negative number")
         if not block:
             if not self.items:
                 # failed poll: modelled as "until non-empty or a quantum passed" with back-off
